@@ -96,11 +96,11 @@ Definition dec_fixed (F : fixes) : Prop := fix_dec F = true.
 Lemma step_cnt F limit s e s' : dec_fixed F -> cnt_inv s -> step F limit s e = Some s' -> cnt_inv s'.
 Proof.
   intros HF I St. destruct e as [metas frames ws|order|t ws]; cbn [step] in St.
-  - unfold step_wake in St. destruct (blimit limit <? len frames); [discriminate|].
+  - unfold step_wake in St. destruct (_ || _); [discriminate|].
     destruct frames as [|f fr].
     + injection St as <-. apply cnt_same_keys; auto.
     + remember (f :: fr) as frames. cbn [clients] in St.
-      destruct (fan_out F (blimit limit) frames ws (clients s)) as [[cs' rm]|] eqn:Fo; [|discriminate].
+      destruct (fan_out F (lim_of F limit) frames ws (clients s)) as [[cs' rm]|] eqn:Fo; [|discriminate].
       injection St as <-. rewrite HF. apply fold_remove_cnt. apply cnt_same_keys; auto.
       eapply fan_out_keys; eauto.
   - unfold step_accept in St. destruct (negb _); [discriminate|].
